@@ -661,6 +661,31 @@ fn run_meta<K: KeyT, V: ValT>(a: &Args) {
         for &i in o3.iter().take(rng.gen_range(0..3)) {
             ex(&mut w, ins(3, keys[i], vals[i]));
         }
+        // content-neutral detour (two cases out of three): every element still in the old table is visited
+        // through an API that hands it out and puts it back unchanged -- replace_entry_with(Some(same)),
+        // and_modify(+0), raw-entry replace, get_mut without a write, set replace / get_or_insert of an
+        // equal element.  The contents are what they were, so nothing observable may differ afterwards.
+        if case % 3 != 2 && !zst {
+            let (_, oldk) = w.keys_by_table(3);
+            for (j, k) in oldk.into_iter().enumerate() {
+                let v = keys.iter().position(|&x| x == k).map(|i| vals[i]).unwrap_or(0);
+                let o = if set {
+                    match (j + case as usize) % 3 {
+                        0 => json!({"op":"SReplace","s":3,"k":k}),
+                        1 => json!({"op":"SGetOrInsert","s":3,"k":k}),
+                        _ => json!({"op":"SGet","s":3,"k":k}),
+                    }
+                } else {
+                    match (j + case as usize) % 4 {
+                        0 => json!({"op":"Entry","s":3,"k":k,"chain":[{"m":"match"},{"m":"o_replace_entry_with","some":v},{"m":"match"},{"m":"o_get"}]}),
+                        1 => json!({"op":"Entry","s":3,"k":k,"chain":[{"m":"and_replace_entry_with","some":v},{"m":"and_modify","add":0},{"m":"key"}]}),
+                        2 => json!({"op":"RawEntry","s":3,"k":k,"via":"hash","chain":[{"m":"match"},{"m":"o_replace_entry_with","some":v},{"m":"match"},{"m":"o_get"}]}),
+                        _ => json!({"op":"Get","s":3,"k":k,"kind":"get_mut"}),
+                    }
+                };
+                ex(&mut w, o);
+            }
+        }
         // in half of the cases the second map is then overwritten by clone_from of the third one (a
         // source that is mid-resize, into a destination with another allocation and hasher state)
         if rng.gen_bool(0.5) {
